@@ -72,12 +72,36 @@ LOCAL_TYPES: Dict[Tuple[str, str], FrozenSet[str]] = {
 
 #: allow-list for the root (alias) layer: (function, name) -> roots to drop.
 #: Each line is one named symbol with its reason.
-ROOT_OVERRIDES: Dict[Tuple[str, str], FrozenSet[str]] = {
-    # `p` is only ever taken from parent_stack entries flagged existing=True
-    # (nodes of the target tree) or is the result of p.add(n); the (flag, node)
-    # tuple correlation is not tracked by the flow-insensitive alias layer.
-    ("Node._add_filtered._create_parents", "p"): frozenset({"p:other"}),
-}
+ROOT_OVERRIDES: Dict[Tuple[str, str], FrozenSet[str]] = {}
+
+#: Shape axiom of Node._add_filtered (stated on the container, not on a local name): `parent_stack` holds
+#: (is_existing, node) pairs; an entry is *used as a parent* only when it is flagged existing (a node of the
+#: target tree) or after it was replaced by the copy `p.add(n)`.  The (flag, node) correlation is not tracked by
+#: the alias layer, so a local that is only ever bound from entries of `parent_stack`, from `.add()` results or
+#: from another such local does not carry the root of the *source* branch (`p:other`).
+PARENT_STACK_AXIOM = ("Node._add_filtered", "parent_stack", frozenset({"p:other"}))
+
+
+def _bound_from_parent_stack(owner: "Func", bs) -> bool:
+    top = owner
+    while top.parent is not None:
+        top = top.parent
+    if top.qualname != PARENT_STACK_AXIOM[0]:
+        return False
+    seen = False
+    for b in bs:
+        e = getattr(b, "expr", None)
+        if e is None:
+            return False
+        if any(isinstance(x, ast.Name) and x.id == PARENT_STACK_AXIOM[1] for x in ast.walk(e)):
+            seen = True
+            continue
+        if isinstance(e, ast.Call) and isinstance(e.func, ast.Attribute) and e.func.attr in ("add", "add_child", "append_child"):
+            continue
+        if isinstance(e, ast.Name):
+            continue
+        return False
+    return seen
 
 MUT_METHODS = {
     "append", "insert", "remove", "pop", "sort", "reverse", "extend", "clear",
@@ -1111,6 +1135,8 @@ class Env:
         drop = ROOT_OVERRIDES.get((owner.qualname, name))
         if drop:
             out -= drop
+        if _bound_from_parent_stack(owner, bs):
+            out -= PARENT_STACK_AXIOM[2]
         return frozenset(out)
 
     def map_roots(self, f: Func, call: ast.Call, g: Func, recv: Optional[ast.AST],
